@@ -110,7 +110,18 @@ func (run *FuncRun) emitGhostDef(gi *ghostInst) {
 		so := Sort(gi.sorts[i+1]) // sorts[0] is Fuel
 		binders = append(binders, fmt.Sprintf("(%s %s)", name, so))
 		names = append(names, name)
-		env.vars[p.Name] = CVal{T: Term{name, so}, Type: ty, IsSeq: p.Type.Kind == "slice"}
+		env.vars[p.Name] = CVal{T: Term{name, so}, Type: ty, IsSeq: p.Type.Kind == "slice" && !g.Heap}
+	}
+	if g.Heap {
+		m := map[string]Term{}
+		for _, hc := range run.heapGhostComps(g, gi.tsub) {
+			name := run.freshName("g.heap")
+			binders = append(binders, fmt.Sprintf("(%s %s)", name, hc.sort))
+			names = append(names, name)
+			m[hc.name] = Term{name, hc.sort}
+		}
+		env.cur = mapReader{m, run}
+		env.seqBinders = false
 	}
 	body := env.eval(g.Body)
 	sym := quote("ghost:" + gi.inst)
